@@ -39,10 +39,13 @@ func (b *Buffer) Put(key, value []byte) {
 	b.mu.Lock()
 	defer b.mu.Unlock()
 
-	// Store in the operations map - skiplist handles defensive copying
+	// Copy key and value: the caller may reuse its buffers before the commit
+	keyCopy := append([]byte{}, key...)
+	valueCopy := append([]byte{}, value...)
+
 	b.operations[string(key)] = &Operation{
-		Key:      key,
-		Value:    value,
+		Key:      keyCopy,
+		Value:    valueCopy,
 		IsDelete: false,
 	}
 }
@@ -52,9 +55,11 @@ func (b *Buffer) Delete(key []byte) {
 	b.mu.Lock()
 	defer b.mu.Unlock()
 
-	// Store in the operations map - skiplist handles defensive copying
+	// Copy the key: the caller may reuse its buffer before the commit
+	keyCopy := append([]byte{}, key...)
+
 	b.operations[string(key)] = &Operation{
-		Key:      key,
+		Key:      keyCopy,
 		Value:    nil,
 		IsDelete: true,
 	}
